@@ -26,7 +26,7 @@ func init() {
 		Assumptions: []string{"Go crypto verification primitives are correct (shared with go-cose)", "reference Sig_structure and algorithm table per RFC 9052/9053/8230", "faults never forge a signature (a forged one would be judged valid by both sides alike)"},
 		Real:        []string{"github.com/veraison/go-cose (decoders, Verify, built-in verifiers)", "github.com/fxamacker/cbor/v2", "Go crypto"},
 		Stubs:       []string{"wire with fault injection and replay between messages", "foreign peer (reference model)", "entropy source", "format-translating middlebox"},
-		QuickRuns:   12000, ThoroughRuns: 400000,
+		QuickRuns:   300000, ThoroughRuns: 4000000,
 	}
 }
 
